@@ -262,3 +262,38 @@ func VC12Stops() {
 	vrt.Assert("flush-goroutine-exited", vrt.LiveGoroutines() == 0)
 	vrt.Cover("done")
 }
+
+//verif: prop=C12 bounds="Size in {4097, 5000, 8191, 8193, 12000} (beyond a memory page and not page multiples), writes of 100, 1000 or 4096 bytes (first byte symbolic) until more than Size + 2 writes' worth was accepted, no Sync or tick: after every write, accepted minus received by the sink never exceeds Size, the sink stream is a prefix of the accepted stream cut at a write boundary; then Stop delivers the rest"
+func VC12LargeSize() {
+	vrt.Budget(60000000)
+	sink := &vSerialSink{}
+	size := []int{4097, 5000, 8191, 8193, 12000}[vrt.Choice("size", 5)]
+	chunk := []int{100, 1000, 4096}[vrt.Choice("chunk", 3)]
+	b := &BufferedWriteSyncer{WS: sink, Size: size, Clock: vNoTickClock12{}, FlushInterval: time.Hour}
+	accepted := 0
+	first := vrt.Byte("b0")
+	boundaries := map[int]bool{0: true}
+	for accepted <= size+2*chunk {
+		p := make([]byte, chunk)
+		for i := range p {
+			p[i] = byte('a' + (accepted/chunk)%26)
+		}
+		if accepted == 0 {
+			p[0] = first
+		}
+		n, err := b.Write(p)
+		vrt.Assert("write-accepts-all", n == chunk && err == nil)
+		accepted += chunk
+		boundaries[accepted] = true
+		vrt.Assert("never-more-than-size-held-back", accepted-len(sink.stream) <= size)
+		vrt.Assert("sink-writes-end-at-caller-write-boundaries", boundaries[len(sink.stream)])
+	}
+	vrt.Assert("stop-nil", b.Stop() == nil)
+	vrt.Assert("stop:everything-delivered", len(sink.stream) == accepted && sink.stream[0] == first)
+	vrt.Cover("done")
+}
+
+type vNoTickClock12 struct{}
+
+func (vNoTickClock12) Now() time.Time                        { return time.Unix(0, 0) }
+func (vNoTickClock12) NewTicker(time.Duration) *time.Ticker { return &time.Ticker{C: make(chan time.Time)} }
